@@ -4,8 +4,8 @@
    Goroutine interleavings, TCP, timers, race- and deadlock-freedom are explored by live runs (Check/C11.v), not proved. *)
 From Coq Require Import Permutation.
 From Virel Require Import Lib.Config Lib.U64 Lib.AMap Model.Ledger Model.Node Model.Sync Spec.Chain
-  Proofs.NodeBasics Proofs.ForkChoice Proofs.Sync Proofs.Sync2 Proofs.Sync2Refine Proofs.Sync2Main Proofs.Sync2Stuck
-  Proofs.Sync2Example Gen.Params.
+  Proofs.NodeBasics Proofs.ForkChoice Proofs.Sync Proofs.Sync2 Proofs.Sync2Refine Proofs.Sync2Main Proofs.Sync2Reach
+  Proofs.Sync2Stuck Proofs.Sync2Example Proofs.ChainInv Proofs.ChainHeights Gen.Params.
 Open Scope N_scope.
 
 (* ---- safety: whatever a peer sends ---- *)
@@ -224,7 +224,43 @@ Theorem C11_sync_fork_catches_up : forall cfg genesis_addr team_key gh peer n0 s
 Proof. exact sync_fork_catches_up. Qed.
 Print Assumptions C11_sync_fork_catches_up.
 
-(* the schedule of the theorem above in terms of the events of the synchronisation machine: one round is the event
+(* The same with the premise REACH stated on the two chains.  Our node satisfies the chain invariants of every reachable
+   state (C10/C17 structure, C04 fork choice, tip height = height of the tip block); while it accepts the peer's branch its
+   tip is its own old tip or the last block accepted, so REACH follows from
+     REACH'  if the peer's main chain has a block at height (our height + PARALLEL_BLOCKS_DOWNLOAD + 1), that block is
+             heavier than our tip.
+   Nothing to check when the peer's chain is at most PARALLEL_BLOCKS_DOWNLOAD + 1 blocks higher than ours (in particular
+   when it is heavier but not higher).  Livelock 1 is a pair of chains on which REACH' fails (135 <= 145 at height 65). *)
+Theorem C11_sync_fork_catches_up_chains : forall cfg genesis_addr team_key gh peer n0 shared theirs,
+  chain_structure gh peer -> CInv gh n0 /\ FInv n0 /\ HInv n0 ->
+  N.of_nat (length (blocks n0) + length theirs) <= two64 ->
+  main_chain peer = shared ++ theirs -> shared <> [] -> theirs <> [] ->
+  (forall b, In b (shared ++ theirs) -> b_hash b <> 0) ->
+  (forall b, In b shared -> get_block n0 (b_hash b) = Some b) ->
+  (forall b, In b theirs -> get_block n0 (b_hash b) = None) ->
+  acc_chain cfg genesis_addr n0 theirs ->
+  (forall j, (j < length theirs)%nat -> top_cd (apply_ext cfg genesis_addr n0 (firstn j theirs)) < top_cd peer) ->
+  top_h peer + parallel_blocks cfg + 2 < two64 -> 1 <= parallel_blocks cfg ->
+  (forall o, nth_error (shared ++ theirs) (N.to_nat (top_h n0 + parallel_blocks cfg + 1)) = Some o -> top_cd n0 < b_cd o) ->
+  forall s, sy_node s = n0 -> sy_queue s = [] -> sy_buf s = [] ->
+  (sy_diff s < top_cd peer \/ (sy_diff s = top_cd peer /\ sy_height s = top_h peer)) ->
+  exists bound, forall now, (forall b, In b (tl (shared ++ theirs)) -> prevalidate_block cfg team_key b now = Ok tt) ->
+    (forall k, (bound <= k)%nat ->
+       let s' := srounds cfg genesis_addr team_key peer now k s in
+       sy_node s' = apply_ext cfg genesis_addr n0 theirs /\
+       (forall b, In b (main_chain peer) -> get_block (sy_node s') (b_hash b) = Some b) /\
+       top (sy_node s') = top peer /\ sy_buf s' = [] /\
+       srounds cfg genesis_addr team_key peer now (S k) s = s') /\
+    (forall m s', (bound <= m)%nat -> prounds cfg genesis_addr team_key peer now m s s' ->
+       sy_node s' = apply_ext cfg genesis_addr n0 theirs /\
+       (forall b, In b (main_chain peer) -> get_block (sy_node s') (b_hash b) = Some b) /\
+       top (sy_node s') = top peer /\ sy_buf s' = []) /\
+    (forall fuel, (bound <= fuel)%nat ->
+       top (sy_node (fst (sim cfg genesis_addr team_key fuel peer s [] now))) = top peer).
+Proof. exact sync_fork_catches_up_chains. Qed.
+Print Assumptions C11_sync_fork_catches_up_chains.
+
+(* the schedule of the theorems above in terms of the events of the synchronisation machine: one round is the event
    sequence  STATS(peer's tip) - Synchronize iteration - one BLOCK packet per block the peer answers with - post-processor
    steps until the buffer is empty *)
 Theorem C11_sync_round_events : forall cfg genesis_addr team_key peer now s,
@@ -266,3 +302,18 @@ Theorem C11_fork_example_deep_fork :
     top (sy_node s') = top (k_feed e_theirs2).
 Proof. exact example_deep_fork. Qed.
 Print Assumptions C11_fork_example_deep_fork.
+
+(* (3) the control of livelock 1, through the chain-level premise REACH': our node holds only the first 13 of its 14 blocks
+   (cumulative difficulty 112); the peer's block of height 13 + 51 = 64 has cumulative difficulty 133 > 112; the node
+   catches up with the peer's 75 blocks.  (On the Go implementation: reached the peer's tip in 27 s, while the 14-block
+   node had not moved after 150 s - header of Proofs/Sync2Stuck.v.) *)
+Theorem C11_fork_example_long_fork_control :
+  (top_h (k_feed e_ours3), top_cd (k_feed e_ours3)) = (13, 112) /\
+  map b_cd (firstn 1 (skipn 63 k_theirs)) = [133] /\
+  exists bound, forall k, (bound <= k)%nat ->
+    let s' := srounds cfg_verifnet 7 0 (k_feed k_theirs) k_now k (sync0 (k_feed e_ours3)) in
+    sy_node s' = apply_ext cfg_verifnet 7 (k_feed e_ours3) k_theirs /\
+    (forall b, In b (k_genesis :: k_theirs) -> get_block (sy_node s') (b_hash b) = Some b) /\
+    top (sy_node s') = top (k_feed k_theirs).
+Proof. exact example_long_fork_control. Qed.
+Print Assumptions C11_fork_example_long_fork_control.
